@@ -694,7 +694,9 @@ def w_holstein(case, led):
                       f"off-diagonal J differs from nearest-neighbour {'periodic' if periodic else 'open'} coupling at {at}", key + ("J",), fields, rep, nmol >= 2)
         Hm, e = mpo_dense(model)
         if e is not None:
-            raise e          # Mpo construction is C01's subject; a failure here is a checker error of this property
+            # the oracle's term list only contains symbols every basis accepts, so a failure comes from the terms the builder generated
+            led.check(False, "post:HolsteinModel.__init__:mpo_constructible", "HolsteinModel.__init__", f"Mpo(model) raised {type(e).__name__}: {e}", key + ("mpo",), fields, rep)
+            continue
         scale = max(1.0, float(np.abs(Ho).max()))
         d, at = dev(Hm, Ho)
         led.check(d <= 1e-10 * scale, "post:HolsteinModel.__init__:dense_hamiltonian", "HolsteinModel.__init__",
@@ -809,7 +811,8 @@ def w_sbm(case, led):
     Ho = S.assemble(dims, terms)
     Hm, e = mpo_dense(model)
     if e is not None:
-        raise e
+        led.check(False, "post:SpinBosonModel.__init__:mpo_constructible", "SpinBosonModel.__init__", f"Mpo(model) raised {type(e).__name__}: {e}", key0 + ("mpo",), fields, rep0)
+        return
     d, at = dev(Hm, Ho)
     led.check(d <= 1e-10 * max(1.0, np.abs(Ho).max()), "post:SpinBosonModel.__init__:dense_hamiltonian", "SpinBosonModel.__init__",
               f"dense(Mpo(model)) differs from eps sz + delta sx + sum (p^2 + w^2 q^2)/2 + sz sum c q by {d:.3e} at {at}", key0 + ("H",), fields, rep0)
@@ -955,7 +958,9 @@ def w_ti1d(case, led):
     Ho = S.assemble(dims, terms)
     Hm, e = mpo_dense(model)
     if e is not None:
-        raise e
+        # none of the documented terms puts two symbols a basis cannot combine on one DoF (see ti1d_config), so the builder produced other terms
+        led.check(False, "post:TI1DModel.__init__:mpo_constructible", "TI1DModel.__init__", f"Mpo(model) raised {type(e).__name__}: {e}", key0 + ("mpo",), fields, rep0)
+        return
     scale = max(1.0, float(np.abs(Ho).max()))
     d, at = dev(Hm, Ho)
     led.check(d <= 1e-10 * scale, "post:TI1DModel.__init__:dense_hamiltonian", "TI1DModel.__init__",
